@@ -37,6 +37,18 @@ impl InstructionGenerator {
             }
             return;
         }
+        // POKE only reads its arguments: they are passed by value, so that no variable
+        // is written back over the byte that was just poked into it
+        let args: Expressions = if name == BuiltInSub::Poke {
+            args.into_iter()
+                .map(|arg| {
+                    let pos = arg.pos;
+                    Expression::Parenthesis(Box::new(arg)).at_pos(pos)
+                })
+                .collect()
+        } else {
+            args
+        };
         self.generate_push_unnamed_args_instructions(&args, pos);
         self.push(Instruction::PushStack, pos);
         self.push(Instruction::BuiltInSub(name), pos);
